@@ -828,11 +828,18 @@ func (g *gen) pointHistory(G *grp, r *vh.Rng, coq bool) {
 		g.rep.Dist("buffer:point/Embed+Data/snapshot,overwrite")
 	})
 
+	// ---- special values (special.go)
+	g.specialPoints(G, c, r.Fork())
+
 	// ---- (3)+(4) provenance
 	if !coq {
 		return
 	}
 	identity, finite := provenancePool(G, r)
+	// a decoded identity is one more path to the identity
+	if t := G.g.Point(); t.UnmarshalBinary(append([]byte{}, c.encNull...)) == nil {
+		identity = append(identity, &pexp{op: "var", pt: t, d: new(big.Int), how: "decoded identity encoding"})
+	}
 	{ // every identity path, half of the finite ones
 		var keep []*pexp
 		for _, e := range finite {
